@@ -151,6 +151,7 @@ P = {
   technique="CFG dominance / must-pass-through + sibling-branch agreement"),
 "C14": dict(
   decided={
+    "C14.i": "restore is idempotent per parser: the 'replaced' flag is cleared before any nesting counter is decremented, on every path and unconditionally (a repeated restore for the same parser does nothing)",
     "C14.h": "postponed initialisation: the per-object record is removed from _tx_obj_attrs before the collected attributes are applied to the object and before __init__ runs (the instrumented __setattr__ routes by the record's presence)",
     "C14.a": "obligation O1: attribute-method instrumentation of user classes is restored on every exit of every load for every model under construction; no release without acquire",
     "C14.c": "the tuple of dunder names restored covers the tuple replaced",
@@ -165,6 +166,8 @@ P = {
   technique="obligation ledger over normal + exceptional CFG exits through the call graph"),
 "C15": dict(
   decided={
+    "C15.h": "_abandon_user_objects restores the classes and releases the per-object records for every abandoned model that has a parser; the two calls depend on nothing else (not on the parser's 'replaced' flag)",
+    "C14.i": "(shared with C14) restore is idempotent per parser: the 'replaced' flag is cleared before any nesting counter is decremented, on every path and unconditionally (a repeated restore for the same parser does nothing)",
     "C15.b": "obligation O2: per-object attribute storage on user classes released on every failure exit",
     "C15.c": "handlers that release the per-object storage are catch-all",
     "C15.d": "_release_user_obj_attrs has no exit or guard depending on state other than the ids recorded at creation",
@@ -178,6 +181,8 @@ P = {
   technique="obligation ledger over exceptional CFG exits through the call graph"),
 "C16": dict(
   decided={
+    "C16.f": "while objects are built, conversions and processors come from the metamodel of the parser that produced the tree (receiver of every process/has_obj_processor in parse_tree_to_objgraph); _tx_metamodel is never read through a rule or class object (base-type rule objects are shared by all metamodels)",
+    "C17.i": "every model gets a repository object of its own: each store into <model>._tx_model_repository binds a GlobalModelRepository constructed there (only all_models is shared through the constructor)",
     "C16.a": "every load obtains its parser by cloning the blueprint; clone() re-initialises every mutable container __init__ creates (writer/reader table agreement, copy.copy is shallow)",
     "C16.d": "no mutable default argument is stored or mutated anywhere in the package (process-wide shared state)",
     "C16.c": "a value stored in a process-wide (module- or class-level) cache is keyed by everything it was computed from (per-(cache,input) exceptions with a reason)",
@@ -187,6 +192,7 @@ P = {
   technique="who-may-call check + __init__/clone container table agreement"),
 "C17": dict(
   decided={
+    "C17.i": "every model gets a repository object of its own: each store into <model>._tx_model_repository binds a GlobalModelRepository constructed there (only all_models is shared through the constructor)",
     "C18.b": "(shared with C18) cleanup of an abandoned load removes only models still under construction: finished models stay cached",
     "C17.a": "the model is registered (pre_ref_resolution_callback) before any referenced model is loaded (cycle cut)",
     "C17.b": "load_model loads only when neither repository has the file, otherwise returns the cached model",
